@@ -120,6 +120,16 @@ let check_line (l : string) : string =
     else if not order then Printf.sprintf "ORACLE C09.shared_tag_completions_out_of_order|C08.shared_tag_answers_delivered_out_of_order n=%d" n
     else if not paired then Printf.sprintf "ORACLE C09.shared_tag_reply_paired_with_wrong_request|C08.shared_tag_answers_delivered_out_of_order n=%d" n
     else "OK"
+  | "CF" ->
+    (* the Tag client when the connection fails: n requests, a of them answered before the failure *)
+    let n = next_int t in let a = next_int t in
+    expect t "FAILED"; let failed = next_int t in
+    expect t "WRONG"; let wrong = next_bool t in
+    expect t "HANG"; let hang = next_bool t in
+    if hang then Printf.sprintf "ORACLE C10.tag_client_request_never_handed_back_after_connection_failure|C09.shared_tag_request_never_completed n=%d answered=%d" n a
+    else if wrong then Printf.sprintf "ORACLE C10.tag_client_request_succeeds_without_reply_or_received_reply_lost n=%d answered=%d" n a
+    else if failed <> n - a then Printf.sprintf "ORACLE C10.tag_client_failed_count n=%d answered=%d failed=%d" n a failed
+    else "OK"
   | "SOAK" ->
     let n = next_int t in expect t "OK"; let ok = next_bool t in
     expect t "MAXTAG"; let _ = next_int t in expect t "DISTINCTTAGS"; let d = next_int t in
